@@ -487,10 +487,8 @@ func (p *Proxy) findBackendByDialog(msg *Message) (Backend, ServerTransport, err
 		return nil, nil, err
 	}
 
-	// no dialog for INVITE and SUBSCRIBE message because they initialize the dialog
-	if method == "INVITE" || method == "SUBSCRIBE" {
-		return nil, nil, fmt.Errorf("no dialog for request %s", method)
-	}
+	// a request that initializes a dialog has no To tag, so GetDialog fails for it; a
+	// re-INVITE or a refresh SUBSCRIBE belongs to its dialog like any other request
 	dialog, err := msg.GetDialog()
 
 	if err != nil {
